@@ -232,7 +232,8 @@ def fq(p):
 
 
 def close(x, y):
-    return abs(x - y) <= TOL * max(F(1), abs(y))
+    """float result x vs exact model value y: RELATIVE 1e-9 (tiny weights like EPS*EPS = 1e-10 are compared too)"""
+    return abs(x - y) <= TOL * abs(y) + F(1, 10**30)
 
 
 def ft_compare(case, res, val):
